@@ -1789,3 +1789,11 @@ V(id='c29-polyroots-order-filters', prop='C29', file='mpmath/calculus/polynomial
 V(id='c29-verify-benign-swapped-operands', prop='C29', file='mpmath/calculus/optimization.py',
   old="        if verify and not norm(f(*xl))**2 <= tol:", new="        if verify and not tol >= norm(f(*xl))**2:",
   expect='silent')
+
+# ---- C37 Y-R5 (fix 1bb1bf8) ----
+V(id='c37-numeral-guard-one-backend-only', prop='C37', file='mpmath/libmp/libintmath.py',
+  old="    A, B = divmod(n, MPZ(base)**half)\n    if not A:\n        # n has fewer digits than announced\n        return numeral(B, base, half, digits)\n",
+  new="    A, B = divmod(n, MPZ(base)**half)\n", expect='fire:Y-R5:numeral_gmpy')
+V(id='c37-numeral-split-point-differs', prop='C37', file='mpmath/libmp/libintmath.py',
+  old="    half = (size // 2) + (size & 1)\n    A, B = divmod(n, MPZ(base)**half)", new="    half = size // 2\n    A, B = divmod(n, MPZ(base)**half)",
+  expect='fire:Y-R5:numeral_gmpy')
